@@ -43,6 +43,8 @@ func layoutCase(c *run.Ctx) run.Result {
 	o.checkRemoveUnreferencedSequences()
 	if c.Case%2 == 0 {
 		o.checkWeldStrides()
+	} else {
+		o.checkSliverNullFaces()
 	}
 	o.finish(m.Topology() == modeling.TriangleTopology)
 	return res
